@@ -107,6 +107,26 @@ def build(chk):
                 p.fixed = [] if unit else [("C", ("u", 3, cv))]
                 chk.count("loop.shape.%s" % nm)
                 progs.append(p)
+    # the loop observed only through its failure: the result is discarded (ignore pattern, ignored tuple component, argument of a
+    # function that drops it, scrutinee of a match with constant arms); the body panics on iteration `ctx`, exits on iteration 2
+    for w in (0, 1, 2, 3):
+        cty = "u%d" % (1 << w)
+        dbody = ("fn lp(acc: u8, ctx: u8, i: %s) -> Either<u8, u8> { let hit: bool = jet::eq_8(%s, ctx); match hit { true => panic!(), false => (), }; "
+                "match jet::eq_8(%s, 2) { true => Left(acc), false => Right(acc), } }\nfn forget(x: Either<u8, u8>) -> u8 { 3 }\n") % (cty, conv8[w], conv8[w])
+        uses = [
+            ("ignore", "let _: Either<u8, u8> = for_while::<lp>(5, witness::C);"),
+            ("ignore-in-tuple", "let (_, k): (Either<u8, u8>, u8) = (for_while::<lp>(5, witness::C), 1);"),
+            ("ignore-in-block", "let k: u8 = { let _: Either<u8, u8> = for_while::<lp>(5, witness::C); 4 };"),
+            ("dropped-by-function", "let k: u8 = forget(for_while::<lp>(5, witness::C));"),
+            ("constant-arms", "let k: u8 = match for_while::<lp>(5, witness::C) { Left(a: u8) => 1, Right(b: u8) => 1, };"),
+            ("named-unused", "let r: Either<u8, u8> = for_while::<lp>(5, witness::C);"),
+        ]
+        for nm, use in uses:
+            for cv in (0, 1, 2, 3, 200):
+                p = Prog("%sfn main() { %s }" % (dbody, use), [("C", ("U", 3))], "loop-discard/%d/%s/%d" % (w, nm, cv))
+                p.fixed = [("C", ("u", 3, cv))]
+                chk.count("loop.discard.%s" % nm)
+                progs.append(p)
     return progs
 
 
